@@ -135,8 +135,8 @@ class ModelAudit:
 			attrs[name] = sorted(a for a in ("input", "output", "handles",
 				"_NON_LINEAR_OPS") if a in m.__dict__)
 		state = {k: _sha(v) for k, v in self.model.state_dict().items()}
-		flags = {k: (bool(p.requires_grad), p.grad is None)
-			for k, p in self.model.named_parameters()}
+		flags = {k: (bool(p.requires_grad), None if p.grad is None else
+			_sha(p.grad)[:12]) for k, p in self.model.named_parameters()}
 		return {"hooks": hooks, "state": state, "attrs": attrs,
 			"flags": flags, "behaviour": self._behaviour()}
 
@@ -169,7 +169,7 @@ class ModelAudit:
 			b = self.before["flags"].get(k)
 			if b is not None and b != v:
 				out.append(("state", "parameter '%s': (requires_grad, "
-					"grad is None) changed from %s to %s" % (k, b, v)))
+					"accumulated .grad) changed from %s to %s" % (k, b, v)))
 		if after["behaviour"] != self.before["behaviour"]:
 			out.append(("behaviour", "probe forward/gradient: before=%s "
 				"after=%s" % (self.before["behaviour"], after["behaviour"])))
